@@ -306,9 +306,9 @@ where
                     debug!(
                         "Rejecting cookie-less non-TCP request due to matching deny list entry"
                     );
-                    let builder = mk_builder_for_target();
-                    let mut additional = builder.additional();
-                    additional.header_mut().set_rcode(Rcode::REFUSED);
+                    let mut additional = mk_builder_for_target()
+                        .start_error(request.message(), Rcode::REFUSED)
+                        .additional();
                     additional.header_mut().set_tc(true);
                     return ControlFlow::Break(additional);
                 }
